@@ -8,6 +8,7 @@ def reqFwd : Req → Option Fwd
   | .lk ct _ c _ => some (.lk ct c)
   | .init rid cid => some (.init rid cid)
   | .call rid _ => some (.call rid)
+  | .will _ _ => none
   | .other => none
 
 /-- **What a request makes the node send**: to the leader goes the request itself, field for field — and, when the link
@@ -16,10 +17,17 @@ theorem request_fwd_source (s : Node) (c : Nat) (short : Bool) (q : Req) (c' : N
     (h : (c', f) ∈ (step s (.request c short q)).2.fwd) :
     c' = c ∧ (some f = reqFwd q ∨
       ∃ x rid cid, s.conns[c]? = some x ∧ x.link = none ∧ x.initCmd = some (rid, cid) ∧ f = .init rid cid) := by
-  simp only [step, stepRequest] at h
+  simp only [step] at h
+  rcases will_or_not q with ⟨wct, wcmd, rfl⟩ | hq
+  · rw [stepRequest_will] at h
+    split at h
+    · simp at h
+    · simp [willConn_fwd] at h
+  rw [stepRequest_eq hq] at h
   split at h
   · simp at h
   · rename_i x hx
+    simp only at h
     obtain ⟨rfl, hb⟩ := applyConn_fwd h
     refine ⟨rfl, ?_⟩
     have pre_case : ∀ {ic l n pre}, checkClient s x ic = some (l, n, pre) → f ∈ pre →
@@ -52,6 +60,7 @@ theorem request_fwd_source (s : Node) (c : Nat) (short : Bool) (q : Req) (c' : N
       | call rid fw =>
         rcases classify_call_shape (s := s) (x := x) (short := short) (rid := rid) (fw := fw) with h1 | h1 | h1 | h1 | ⟨_, _, _, h1, _⟩ <;>
           rw [h1] at hb <;> cases hb
+      | will wct wcmd => exact absurd rfl (hq wct wcmd)
       | other =>
         rcases classify_other_shape (s := s) (x := x) (short := short) with h1 | h1 | h1 <;> rw [h1] at hb <;> cases hb
     · cases q with
@@ -65,6 +74,7 @@ theorem request_fwd_source (s : Node) (c : Nat) (short : Bool) (q : Req) (c' : N
       | call rid fw =>
         rcases classify_call_shape (s := s) (x := x) (short := short) (rid := rid) (fw := fw) with h1 | h1 | h1 | h1 | ⟨_, _, _, h1, _⟩ <;>
           rw [h1] at hb <;> cases hb
+      | will wct wcmd => exact absurd rfl (hq wct wcmd)
       | other =>
         rcases classify_other_shape (s := s) (x := x) (short := short) with h1 | h1 | h1 <;> rw [h1] at hb <;> cases hb
     · cases q with
@@ -82,14 +92,18 @@ theorem request_fwd_source (s : Node) (c : Nat) (short : Bool) (q : Req) (c' : N
           obtain ⟨hl, rid2, cid, hic, rfl⟩ := pre_case hcc hf
           exact ⟨x, rid2, cid, hx, hl, hic, rfl⟩
         · exact Or.inl rfl
+      | will wct wcmd => exact absurd rfl (hq wct wcmd)
       | other =>
         rcases classify_other_shape (s := s) (x := x) (short := short) with h1 | h1 | h1 <;> rw [h1] at hb <;> cases hb
 
-/-- everything else that is ever sent to the leader: the INIT a detached link object re-sends when it reconnects -/
+/-- everything else that is ever sent to the leader: the INIT a detached link object re-sends when it reconnects, and —
+when a connection closes (by its client, or a half-closed text connection at the answer it waited for) — the will
+commands it registered, preceded by the INIT it announced if the link has to be opened for them -/
 theorem other_fwd_source (s : Node) (e : Event) (c : Nat) (f : Fwd) (h : (c, f) ∈ (step s e).2.fwd)
     (hreq : ∀ d short q, e ≠ .request d short q) :
-    ∃ x l rid cid, s.conns[c]? = some x ∧ x.link = some l ∧ l.initC = some (rid, cid) ∧ f = .init rid cid ∧
-      ((e = .linkDown c) ∨ ∃ a, e = .leader a) := by
+    ∃ x, s.conns[c]? = some x ∧
+      ((∃ l rid cid, x.link = some l ∧ l.initC = some (rid, cid) ∧ f = .init rid cid ∧ ((e = .linkDown c) ∨ ∃ a, e = .leader a)) ∨
+       WillOf x f) := by
   cases e with
   | accept k => simp [step] at h
   | role r => simp [step] at h
@@ -97,12 +111,35 @@ theorem other_fwd_source (s : Node) (e : Event) (c : Nat) (f : Fwd) (h : (c, f) 
   | request d short q => exact absurd rfl (hreq d short q)
   | close d =>
     simp only [step, stepClose] at h
-    repeat' split at h
-    all_goals simp at h
+    split at h
+    · simp at h
+    · rename_i x hx
+      split at h
+      · simp at h
+      · split at h
+        · simp at h
+        · simp only [List.mem_map] at h
+          obtain ⟨g, hg, he⟩ := h
+          cases he
+          exact ⟨x, hx, Or.inr (closeFwd_mem hg)⟩
   | leaderMsg d msg early =>
     simp only [step, stepLeaderMsg] at h
-    repeat' split at h
-    all_goals simp at h
+    split at h
+    · simp at h
+    · rename_i x hx
+      split at h
+      · simp at h
+      · simp only [List.mem_map] at h
+        obtain ⟨g, hg, he⟩ := h
+        cases he
+        have hgen : ∀ (b : Prop) [Decidable b], f ∈ (if b then willFwd x else []) → WillOf x f := by
+          intro b _ hb
+          split at hb
+          · simp only [willFwd, List.mem_map] at hb
+            obtain ⟨w, hw, rfl⟩ := hb
+            exact Or.inl ⟨w, hw, rfl⟩
+          · cases hb
+        exact ⟨x, hx, Or.inr (hgen _ hg)⟩
   | linkDown d =>
     simp only [step, stepLinkDown] at h
     split at h
@@ -112,16 +149,20 @@ theorem other_fwd_source (s : Node) (e : Event) (c : Nat) (f : Fwd) (h : (c, f) 
       · simp at h
       · rename_i l hl
         simp only at h
-        obtain ⟨rfl, rid, cid, hic, rfl, _⟩ := dropLink_fwd h
-        exact ⟨x, l, rid, cid, hx, hl, hic, rfl, Or.inl rfl⟩
+        obtain ⟨rfl, hcase⟩ := dropLink_fwd h
+        rcases hcase with ⟨rid, cid, hic, rfl, _⟩ | hw
+        · exact ⟨x, hx, Or.inl ⟨l, rid, cid, hl, hic, rfl, Or.inl rfl⟩⟩
+        · exact ⟨x, hx, Or.inr hw⟩
   | leader a =>
     simp only [step, stepLeader] at h
     split at h
     · simp only at h
       obtain ⟨j, x, l, hj, hcj, hl, hm⟩ := dropAll_fwd h
-      obtain ⟨_, rid, cid, hic, rfl, _⟩ := dropLink_fwd hm
+      obtain ⟨_, hcase⟩ := dropLink_fwd hm
       have hj' : s.conns[c]? = some x := by rw [hcj]; simpa using hj
-      exact ⟨x, l, rid, cid, hj', hl, hic, rfl, Or.inr ⟨a, rfl⟩⟩
+      rcases hcase with ⟨rid, cid, hic, rfl, _⟩ | hw
+      · exact ⟨x, hj', Or.inl ⟨l, rid, cid, hl, hic, rfl, Or.inr ⟨a, rfl⟩⟩⟩
+      · exact ⟨x, hj', Or.inr hw⟩
     · simp at h
 
 /-! ### who decides -/
@@ -129,7 +170,7 @@ theorem other_fwd_source (s : Node) (e : Event) (c : Nat) (f : Fwd) (h : (c, f) 
 /-- the node IS the leader: the request of an open connection goes to the node's own engine — nothing is forwarded,
 nothing is fabricated; it is re-dispatched (`AGAIN`) exactly when the connection was being served by the transparency
 loop; afterwards the plain loop serves it -/
-theorem request_as_leader (s : Node) (c : Nat) (x : Conn) (short : Bool) (q : Req)
+theorem request_as_leader (s : Node) (c : Nat) (x : Conn) (short : Bool) (q : Req) (hq : ∀ ct cmd, q ≠ .will ct cmd)
     (hx : s.conns[c]? = some x) (ho : x.closed = false) (ha : x.awaiting = none) (hr : s.role = .leader) :
     (step s (.request c short q)).2 = { tag := .loc (x.plainLoop == some false) } ∧
     ∃ x', (step s (.request c short q)).1.conns[c]? = some x' ∧ x'.plainLoop = some true ∧ x'.link = x.link := by
@@ -137,7 +178,7 @@ theorem request_as_leader (s : Node) (c : Nat) (x : Conn) (short : Bool) (q : Re
     rcases Nat.lt_or_ge c s.conns.length with h | h
     · exact h
     · rw [List.getElem?_eq_none h] at hx; cases hx
-  simp only [step, stepRequest, hx, classify_leader_open hr ho ha, applyConn, dispatched, hr]
+  simp only [step, stepRequest_eq hq, hx, classify_leader_open hr ho ha, applyConn, dispatched, hr]
   refine ⟨?_, ?_⟩
   · cases hp : x.plainLoop with
     | none => simp
